@@ -3,6 +3,7 @@ package props
 import (
 	"bytes"
 	"fmt"
+	"runtime"
 	"strings"
 	"testing"
 	"unicode"
@@ -164,7 +165,11 @@ func TestC01_Table(t *testing.T) {
 			judge(t, "c01.encode", c01Check, c)
 		}
 	}
-	cov.ExtraAdd("tuples_lang_size_pos_idx_seen", int64(tuples.n))
+	suffix := ""
+	if runtime.GOARCH != "amd64" {
+		suffix = "_" + runtime.GOARCH // the table is repeated in a 32-bit build in the thorough tier
+	}
+	cov.ExtraAdd("tuples_lang_size_pos_idx_seen"+suffix, int64(tuples.n))
 	n := 0
 	for i := range hb {
 		for _, b := range hb[i] {
@@ -173,7 +178,7 @@ func TestC01_Table(t *testing.T) {
 			}
 		}
 	}
-	cov.ExtraAdd("width_hashbyte_pairs_seen", int64(n))
+	cov.ExtraAdd("width_hashbyte_pairs_seen"+suffix, int64(n))
 	cov.Extra("tuples_total", 10*90*2048)
 	cov.Exhaustive("every (language, size, word position, 11-bit index) tuple: 10 x 90 x 2048")
 }
